@@ -219,6 +219,20 @@ CHECKS = {
         note="bounds as printed in evidence; inserted values are fresh or re-attached nodes; optimizer rules/simplify only applied "
              "to trees whose SQL re-parses to the same structure; states after an operation raised are not judged. " + TRUST,
         design="2/C08"),
+    "C19": dict(
+        category="model_checking", engine="E3",
+        technique="stateless preemption-bounded schedule exploration of real threads under a controlled scheduler (settrace points, semaphore baton, virtual import locks), fork per execution from a cold process",
+        text="Seven (thorough ten) 2-thread harnesses whose bodies are first uses from a cold interpreter and are chosen to collide - the same "
+             "dialect twice, subclass vs base, sqlglot.dialects.<Name> vs Dialect.get_or_raise, the same generator class, optimizer lazy "
+             "attributes vs from-import vs RULES - are executed under a scheduler that owns every switch: scheduling points are line events "
+             "in the lazy-loading / registry / metaclass / dispatch-cache functions and every lock operation (importlib's module locks and "
+             "both sqlglot import locks are replaced by scheduler-aware ones). All schedules with 0 preemptions (both start orders) and 1 "
+             "preemption (quick: at the first visit of every distinct line per thread; thorough: every point, plus 2 preemptions at "
+             "shared-state lines and a 3-thread harness) run to completion; each thread must return its sequential baseline, nothing may "
+             "raise or deadlock, each dialect class is constructed once and each module executed once. A violating schedule is replayed "
+             "twice and must reproduce identically.",
+        note="GIL model at line granularity inside the selected functions; code outside them is atomic; free-running stress is not used. " + TRUST,
+        design="2/C19"),
     "C20": dict(
         category="exploration", engine="E1",
         technique="exhaustive enumeration of (source, target) pairs within 2 edits at every position + all pool pairs x matchings x thresholds; exact node-accounting oracle",
